@@ -10,7 +10,8 @@
 //   vps  N= D= X= k= rnd= q=           -> items= tree= r=q:i@d,i@d;..  tsne::VpTree create + search
 //   exg  N= D= P= Y=                   -> dC=<N*D>                     computeExactGradient
 //   bhg  N= D= row= col= val= Y= theta= -> dC=<N*D>                    computeGradient
-//   run  N= D= X= perp= theta= dim= g= at= -> snaps=it/C/Y;... Y=     TSNE::run observed through its progress log
+//   run  N= D= X= perp= theta= dim= g= at= [upto=T] -> snaps=it/C/Y;... Y= [traj=Y_0;..;Y_T]
+//        TSNE::run observed through its progress log and (upto) its per-iteration observer hook
 //   (the public-API smoke cases live in c17_api.cpp: tapkee.hpp is slow to compile)
 #include <algorithm>
 #include <cfloat>
@@ -123,6 +124,18 @@ struct capture_logger : tapkee::LoggerImplementation
     void message_error(const std::string&) {}
     void message_benchmark(const std::string&) {}
 };
+
+// the per-iteration observer hook of run() (TAPKEE_VERIF): the map right after `zeroMean(Y)` of iterations 0..upto
+static long vh_traj_upto = -1;
+static std::ostringstream vh_traj;
+static void vh_observe_iteration(int iter, const tapkee::ScalarType* Y, int N, int no_dims)
+{
+    if (iter > vh_traj_upto)
+        return;
+    vh_traj << (iter ? ";" : "");
+    for (int i = 0; i < N * no_dims; i++)
+        vh_traj << (i ? "," : "") << vh::num(Y[i]);
+}
 
 static std::string nums(const double* p, size_t n)
 {
@@ -291,10 +304,16 @@ int main()
             lg->wanted = vh::parse_ints(f["at"]);
             lg->snaps.str("");
             lg->first = true;
+            vh_traj_upto = f.count("upto") ? std::stol(f["upto"]) : -1;
+            vh_traj.str("");
+            tsne::verif_iteration_observer() = vh_observe_iteration;
             tapkee::Logging::instance().enable_info();
             t.run(Xm, N, D, Y.get(), dim, vh::parse_num(f["perp"]), vh::parse_num(f["theta"]));
             tapkee::Logging::instance().disable_info();
+            tsne::verif_iteration_observer() = nullptr;
             out << "snaps=" << lg->snaps.str() << " Y=" << nums(Y.get(), (size_t)N * dim);
+            if (vh_traj_upto >= 0)
+                out << " traj=" << vh_traj.str();
             lg->Y = nullptr;
             vh_gvals.clear();
         }
